@@ -39,6 +39,8 @@ const (
 	PauseNone = iota
 	PauseUntilApplied // hold the caller between Propose and waiting until the change is visible in the index
 	PauseFixed
+	PauseBeyondDeadline // the caller's own (short) deadline expires while it is held: outcome or timeout are both fine for
+	// this call, but the outcome must not leak to anybody else
 )
 
 type Item struct {
@@ -102,7 +104,7 @@ func genCase(t *rapid.T) Case {
 	})
 	op := rapid.Custom(func(t *rapid.T) Op {
 		o := Op{K: rapid.SampledFrom([]int{KInsert, KInsert, KInsert, KUpdate, KRemove, KBatchInsert, KBatchUpdate, KBatchRemove}).Draw(t, "k"),
-			Entry: rapid.IntRange(0, c.Nodes-1).Draw(t, "entry"), Pause: rapid.SampledFrom([]int{PauseNone, PauseNone, PauseUntilApplied, PauseUntilApplied, PauseFixed}).Draw(t, "pause")}
+			Entry: rapid.IntRange(0, c.Nodes-1).Draw(t, "entry"), Pause: rapid.SampledFrom([]int{PauseNone, PauseNone, PauseUntilApplied, PauseUntilApplied, PauseFixed, PauseBeyondDeadline}).Draw(t, "pause")}
 		if o.K >= KBatchInsert {
 			o.Items = rapid.SliceOfN(item, 1, 4).Draw(t, "items")
 		} else {
@@ -251,6 +253,8 @@ func check(c Case, o *pbt.Obs) *pbt.Failure {
 			}
 		case PauseFixed:
 			time.Sleep(500 * time.Microsecond)
+		case PauseBeyondDeadline:
+			time.Sleep(25 * time.Millisecond)
 		}
 	})
 	defer storage.VerifSetProposePause(nil)
@@ -335,6 +339,11 @@ func check(c Case, o *pbt.Obs) *pbt.Failure {
 				}
 				before := w.entriesSaved()
 				ctx, cancel := context.WithTimeout(context.Background(), 400*time.Millisecond)
+				if op.Pause == PauseBeyondDeadline {
+					cancel()
+					ctx, cancel = context.WithTimeout(context.Background(), 15*time.Millisecond)
+					lab("caller-deadline-expires-while-paused")
+				}
 				if c.LongWait && ci == 0 && !longWaitUsed && op.K < KBatchInsert && !op.Items[0].WrongDim {
 					if pi := ds.VerifPartitionOf(uid(ci, op.Items[0].Id)); reachable[pi] && !quorum[pi] {
 						hosts := false
@@ -382,6 +391,18 @@ func check(c Case, o *pbt.Obs) *pbt.Failure {
 				cancel()
 				if op.Pause == PauseUntilApplied {
 					lab("apply-before-wait")
+				}
+				if op.Pause == PauseBeyondDeadline {
+					// the call may return its outcome or its own deadline error; either way re-read what happened
+					time.Sleep(3 * time.Millisecond)
+					for _, it := range op.Items {
+						if f, v, _ := w.lookupAll(uid(ci, it.Id)); f {
+							model[it.Id] = v
+						} else {
+							model[it.Id] = 0
+						}
+					}
+					continue
 				}
 				// judge item by item
 				allWrong := true
